@@ -568,7 +568,7 @@ Proof.
   intros H. unfold ev_elem. destruct q as [o tcx]. simpl snd. simpl fst.
   destruct tcx as [t p i|nm]; [|apply e0_fs; exact H].
   destruct t as [ | p' | e sz | es | ents star | ents | alts]; try (apply e0_fs; exact H).
-  destruct alts as [|a alts]; [exact I|].
+  destruct alts as [|a alts]; [apply e0_fs; exact H|].
   pose proof (ev_alts_fs o (a :: alts) ex fl H) as HA.
   destruct (ev_alts e0 o (a :: alts) ex fl) as [ex' fl'|ex' fl'|x|]; simpl in *; try exact I.
   - pose proof (ev_plain_fs (own_check o p i) ex' fl' HA) as HP.
@@ -600,7 +600,9 @@ Proof.
   { simpl. split; [|exact H]. apply H. apply have_examined_in. exact HF. }
   destruct (have_examined ex (o, tcx)); [exact H|]. cbv zeta.
   destruct (r_ty c) as [ | p' | e sz | es | ents star | ents | alts] eqn:Ety.
-  7:{ pose proof (ev_set_fs (ep n) IH [(o, rep_chk c)] ((o, tcx) :: ex) fl H) as HS.
+  7:{ destruct alts as [|a0 alts0].
+      { simpl. split; [|exact H]. eapply (nconf_disj_alts o tcx c []); [exact R | exact Ety | intros a []]. }
+      pose proof (ev_set_fs (ep n) IH [(o, rep_chk c)] ((o, tcx) :: ex) fl H) as HS.
       match goal with |- fs_res _ ?X => change X with (ev_set (ep n) [(o, rep_chk c)] ((o, tcx) :: ex) fl) end.
       destruct (ev_set (ep n) [(o, rep_chk c)] ((o, tcx) :: ex) fl) as [ex2 fl2|ex2 fl2|x|]; simpl in *; try exact I; try exact HS.
       destruct HS as ((q & [<-|[]] & Hn) & F). split; [eapply nconf_resolve; eauto | exact F]. }
@@ -628,8 +630,8 @@ Definition dis_ok (E : list pend) (o : obj) (alts : list chk) (p : option pred) 
 (* an element of a pending set is settled *)
 Definition elem_ok (E : list pend) (q : pend) : Prop :=
   match snd q with
-  | CRep (TDisj alts) p i => dis_ok E (fst q) alts p i
-  | _ => In q E
+  | CRep (TDisj (a :: alts)) p i => dis_ok E (fst q) (a :: alts) p i
+  | _ => In q E                      (* a disjunct without options is handed to the work loop like a plain check *)
   end.
 (* an examined pair is justified by the memo *)
 Definition step_ok (E : list pend) (q : pend) : Prop :=
@@ -651,7 +653,7 @@ Proof. intros I [A (a & B & C)]. split; [intros q Hq; apply I; apply A; exact Hq
 Lemma elem_ok_mono E E' q : incl E E' -> elem_ok E q -> elem_ok E' q.
 Proof.
   intros I. unfold elem_ok. destruct (snd q) as [t p i|nm]; [|apply I].
-  destruct t; try apply I. apply dis_ok_mono. exact I.
+  destruct t; try apply I. destruct alts; [apply I|]. apply dis_ok_mono. exact I.
 Qed.
 Lemma step_ok_mono E E' q : incl E E' -> step_ok E q -> step_ok E' q.
 Proof.
@@ -701,7 +703,7 @@ Proof.
   intros C. unfold ev_elem, elem_ok. destruct q as [o tcx]. simpl snd. simpl fst.
   destruct tcx as [t p i|nm]; [|apply e0_ok; exact C].
   destruct t as [ | p' | e sz | es | ents star | ents | alts]; try (apply e0_ok; exact C).
-  destruct alts as [|a alts]; [exact I|].
+  destruct alts as [|a alts]; [apply e0_ok; exact C|].
   pose proof (ev_alts_ok o (a :: alts) ex fl H C) as HA.
   destruct (ev_alts e0 o (a :: alts) ex fl) as [ex1 fl1|ex1 fl1|x|]; simpl in *; try exact I.
   destruct HA as (C1 & I1 & (a' & Ha' & P1)).
@@ -745,7 +747,8 @@ Proof.
             closed E H /\ incl ex E /\ In (o, tcx) E).
   { intros E CE IE SE. split; [eapply closed_close; eauto|]. split; [intros x Hx; apply IE; right; exact Hx | apply IE; left; reflexivity]. }
   destruct (r_ty c) as [ | p' | e sz | es | ents star | ents | alts] eqn:Ety.
-  7:{ match goal with |- ok_res _ _ _ ?X => change X with (ev_set (ep n) [(o, rep_chk c)] ((o, tcx) :: ex) fl) end.
+  7:{ destruct alts as [|a0 alts0]; [exact I|].
+      match goal with |- ok_res _ _ _ ?X => change X with (ev_set (ep n) [(o, rep_chk c)] ((o, tcx) :: ex) fl) end.
       pose proof (ev_set_ok (ep n) IH [(o, rep_chk c)] ((o, tcx) :: ex) fl _ C1) as HS.
       destruct (ev_set (ep n) [(o, rep_chk c)] ((o, tcx) :: ex) fl) as [ex2 fl2|ex2 fl2|x|]; simpl in *; try exact I.
       destruct HS as (C2 & I2 & P2). apply Hfin; [exact C2 | exact I2 |].
@@ -797,8 +800,8 @@ Proof.
   destruct Hq as [HqE|Hel]; [apply Hin; exact HqE|].
   destruct q as [o tcx]. unfold elem_ok in Hel. simpl fst in *. simpl snd in *.
   destruct tcx as [t p i|nm]; [|apply (Hin Hel)].
-  destruct t; try apply (Hin Hel).
-  apply (Hdis o (CRep (TDisj alts) p i) (TDisj alts, p, i) alts eq_refl eq_refl Hel).
+  destruct t; try apply (Hin Hel). destruct alts as [|a0 alts0]; [apply (Hin Hel)|].
+  apply (Hdis o (CRep (TDisj (a0 :: alts0)) p i) (TDisj (a0 :: alts0), p, i) (a0 :: alts0) eq_refl eq_refl Hel).
 Qed.
 End Decide.
 
@@ -854,7 +857,7 @@ Qed.
 Lemma ev_elem_st q ex fl : stop_res (ev_elem e0 q ex fl).
 Proof.
   unfold ev_elem. destruct (snd q) as [t p i|nm]; [|apply e0_st]. destruct t; try apply e0_st.
-  destruct alts as [|a alts]; [exact I|].
+  destruct alts as [|a alts]; [apply e0_st|].
   pose proof (ev_alts_st (fst q) (a :: alts) ex fl) as H. destruct (ev_alts e0 (fst q) (a :: alts) ex fl); try exact H.
   apply ev_plain_st.
 Qed.
@@ -870,7 +873,7 @@ Proof.
   induction n as [|n IH]; intros p ex fl; [exact I|]. cbn [eval_pair].
   destruct (resolve tc (snd p)) as [c|]; [|exact I].
   destruct (have_examined fl p); [exact I|]. destruct (have_examined ex p); [exact I|]. cbv zeta.
-  destruct (r_ty c); try (apply ev_set_st; exact IH);
+  destruct (r_ty c) as [ | | | | | | alts]; try (destruct alts; [exact I | apply ev_set_st; exact IH]);
     (destruct (expand opq oc tc (fst p) c) as [xe|xx|xq|xcs] eqn:EX;
      [exact I | simpl; eapply expand_stopish; eauto | apply IH | apply ev_set_st; exact IH]).
 Qed.
@@ -998,12 +1001,11 @@ Qed.
 End Readings.
 
 (* ---------- no specification error on well-formed specifications ---------- *)
-(* every name mentioned anywhere in the (normalised) specification is defined and no disjunction is
-   empty: a direct, computable condition on the universe of checks *)
+(* every name mentioned anywhere in the (normalised) specification is defined: a direct, computable
+   condition on the universe of checks.  (An empty disjunction is allowed: nothing conforms to it.) *)
 Definition wf_chk1 (tc : tctx) (c : chk) : bool :=
   match c with
   | CNamed nm => match tctx_get tc nm with Some _ => true | None => false end
-  | CRep (TDisj []) _ _ => false
   | _ => true
   end.
 Definition wf_univ (tc : tctx) (c0 : chk) : bool := forallb (wf_chk1 tc) (uni_chks tc c0).
@@ -1128,7 +1130,7 @@ Proof.
   intros H. unfold ev_elem. destruct q as [o tcx]. simpl snd in *. simpl fst.
   destruct tcx as [t p i|nm]; [|apply e0_ns; exact H].
   destruct t as [ | p' | e sz | es | ents star | ents | alts]; try (apply e0_ns; exact H).
-  destruct alts as [|a alts]; [pose proof (wf_in _ H) as W; discriminate W|].
+  destruct alts as [|a alts]; [apply e0_ns; exact H|].
   assert (HA : forall a', In a' (a :: alts) -> In a' UC).
   { intros a' Ha'. apply (UC_kids tc c0 _ a' H). exact Ha'. }
   pose proof (ev_alts_ns o (a :: alts) ex fl HA) as N1.
@@ -1151,6 +1153,7 @@ Proof.
   destruct (have_examined fl p); [exact I|]. destruct (have_examined ex p); [exact I|]. cbv zeta.
   destruct (r_ty c) as [ | p' | e sz | es | ents star | ents | alts] eqn:Ety.
   7:{ destruct (resolve_in tc c0 (snd p) c H R) as (Hrc & Hal & Hkids).
+      destruct alts as [|a0 alts0]; [exact I|].
       apply ev_set_ns; [exact IH|]. intros q [<-|[]]. exact Hrc. }
   all: (destruct (resolve_in tc c0 (snd p) c H R) as (Hrc & Hal & Hkids);
         assert (Hnd : forall alts, r_ty c <> TDisj alts) by (intros alts; rewrite Ety; discriminate);
@@ -1179,7 +1182,7 @@ Theorem check_verdict_wf o c r :
 Proof.
   intros R WF. pose proof (check_eval opq oc tc o c r R) as V. cbv zeta in V.
   set (c' := norm_chk (rep_chk r)) in *. set (n := step_bound oc tc o c') in *.
-  pose proof (ev_set_ns tc c' WF (eval_pair opq oc tc n) (eval_pair_ns opq oc tc o c' WF n)
+  pose proof (ev_set_ns tc c' (eval_pair opq oc tc n) (eval_pair_ns opq oc tc o c' WF n)
                 [(o, c')] [] []) as NS.
   unfold eval_root in V.
   destruct (ev_set (eval_pair opq oc tc n) [(o, c')] [] []) as [ex' fl'|ex' fl'|x|]; simpl in V.
